@@ -300,8 +300,12 @@ class AbsFile(io.IOBase):
         return False
 
     def readinto(self, b):
-        # (every binary file object has it: code that probes for the method sees it; filling a caller-supplied buffer is outside the model)
-        raise Unsupported("readinto() on an abstract file")
+        """fills a caller-supplied buffer with up to len(b) bytes and returns how many were stored (what was in the buffer behind them stays)"""
+        data = self.read(len(b))
+        if not isinstance(data, (bytes, bytearray)):
+            raise Unsupported("readinto() of abstract file content")
+        b[: len(data)] = data
+        return len(data)
 
     def __getattr__(self, name):
         if name.startswith("_") or name in ("name", "preset", "csv_rows", "avro", "outer", "errors", "newline", "codec_truncated", "short_reads"):
@@ -309,9 +313,9 @@ class AbsFile(io.IOBase):
         raise Unsupported(f"file method {name!r} is outside the file model")
 
     def _refuse(self, *a, **k):
-        raise Unsupported("file method outside the file model (readline/readlines/readinto/seek/tell/truncate/fileno/writelines)")
+        raise Unsupported("file method outside the file model (readline/readlines/seek/tell/truncate/fileno/writelines)")
 
-    readline = readlines = readinto = seek = tell = truncate = fileno = writelines = _refuse
+    readline = readlines = seek = tell = truncate = fileno = writelines = _refuse
 
     # ---- ghost view
     def content(self):
